@@ -138,6 +138,8 @@ FREEBLOCK_HEADER_LENGTH = 4
 NEXT_FREEBLOCK_OFFSET_LENGTH = 2
 FREEBLOCK_BYTE_LENGTH = 2
 PAGE_FRAGMENT_LIMIT = 60
+# SQLite never allocates fewer than four bytes of a b-tree page to a cell (btree.c: cellSizePtr)
+MINIMUM_CELL_ALLOCATION_SIZE = 4
 FIRST_OVERFLOW_PAGE_NUMBER_LENGTH = 4
 OVERFLOW_HEADER_LENGTH = (
     4  # This is the next overflow page number but we call it a header here
